@@ -4,7 +4,10 @@ package streams
 // server.cachingFunc, through the real server (sysx.World).  One case = one functional graph over
 // ≤ 4 URLs (each URL redirects to one target or answers 200/404) × Location form × per-hop rule
 // variant × redirect status × restart flag; the origin is keyed by request path (any known
-// host answers), the performer's watchdog ends a runaway loop after srLimit contacts.
+// host answers).  rrrouter counts the redirects it follows per client request and answers 508 Loop
+// detected after maxRedirects (10) of them (the repair of findings C18-a / C18-c): a looping graph
+// costs 11 contacts.  The performer's watchdog (srLimit contacts) stays as protection of the
+// harness process; `runaway` is not expected on any case any more.
 //
 // Case ids 0 … srExhaustive-1 enumerate ALL 1440 functional graphs over 1-4 nodes × the three
 // uniform Location forms (absolute, /rooted, relative) with restart_on_redirect on; the per-hop
@@ -33,7 +36,7 @@ const (
 	srLimit      = 40
 	srGraphs     = 3 + 16 + 125 + 1296 // functional graphs over 1, 2, 3, 4 nodes
 	srExhaustive = 3 * srGraphs
-	srShown      = 8 // contacts printed for a runaway loop
+	srShown      = 8 // contacts printed for a run the watchdog had to end (never expected)
 )
 
 var srPaths = []string{"/n0", "/s/n1", "/s/n2", "/n3"}
@@ -321,8 +324,10 @@ func srFixed(nodes []srNode) srCase {
 	return c
 }
 
-// C18-a witnesses: a 2-cycle, a 3-cycle, an absolute self-redirect (https upgrade on a plain-http
-// destination): none is caught by urlEquals, the handler recurses until the watchdog cuts it.
+// kf.C18-a: the witnesses of the former finding C18-a — a 2-cycle, a 3-cycle, an absolute
+// self-redirect (https upgrade on a plain-http destination): none is caught by urlEquals, the
+// handler used to recurse until the watchdog cut it.  Repaired by the redirect counter in
+// cachingFunc; regression cases: 508 Loop detected after 11 contacts.
 func srKfA(g *hx.Gen, id int) hx.Case {
 	var c srCase
 	switch id % 3 {
